@@ -137,6 +137,34 @@ def generate(repo):
     if not any(isinstance(s, ast.Return) and ast.unparse(s) == 'return None' for s in pre):
         raise Unsupported('TCO.dequeue: oversized PDU is not held back')
 
+    # ---------------- pdu.py: how the MIU is learnt from a MIUX TLV and turned into an MIU
+    pdec = find(pdu, 'Parameter.decode')
+    br = expect('Parameter.decode: MIUX branch', nodes(pdec, ast.If, lambda n: ast.unparse(n.test) == 'T == Parameter.MIUX'), 1)[0]
+    unp = [x for x in br.body if isinstance(x, ast.Assign) and targets(x, 'V')]
+    if len(unp) != 1 or ast.unparse(unp[0].value) != "struct.unpack('>H', V)[0]":
+        raise Unsupported('Parameter.decode: MIUX value is not a 16-bit big-endian integer')
+    ifs = expect('Parameter.decode: MIUX branch tests', [x for x in br.body if isinstance(x, ast.If)], 2)
+    if ast.unparse(ifs[0].test) != 'L != 2' or not isinstance(ifs[0].body[0], ast.Raise):
+        raise Unsupported('Parameter.decode: MIUX length check changed')
+    inner = ifs[1]
+    if inner.orelse:
+        raise Unsupported('Parameter.decode: MIUX reserved-bit test has an else branch')
+    msk = expect('Parameter.decode: MIUX mask assignment', [x for x in inner.body if isinstance(x, ast.Assign) and targets(x, 'V')], 1)[0]
+    if any(isinstance(x, (ast.Assign, ast.AugAssign)) for x in br.body if x is not unp[0]):
+        raise Unsupported('Parameter.decode: MIUX branch assigns more than expected')
+    out.append(kernel('gen_c10_miux_reserved', inner.test, [('V', I)], {}))
+    out.append(kernel('gen_c10_miux_masked', msk.value, [('V', I)], {}))
+    M_ = {'self._miux': 'miux'}
+    pmiu = find(pdu, 'ParameterExchange.miu')
+    out.append(py2coq.Fn(ast.parse('def k(miux):\n    return %s\n' % ast.unparse(
+        Subst(M_).visit(ast.parse(ast.unparse(expect('ParameterExchange.miu: return', nodes(pmiu, ast.Return), 1)[0].value.body),
+                                  mode='eval').body))).body[0], {'miux': I}, coqname='gen_c10_pax_miu').translate())
+    for cls, nm, var in (('Connect', 'gen_c10_connect_miu', 'connect_pdu.miu'), ('ConnectionComplete', 'gen_c10_cc_miu', 'cc_pdu.miu')):
+        dec = find(pdu, cls + '.decode')
+        a = expect(cls + '.decode: miu assignment', [x for x in ast.walk(dec) if isinstance(x, ast.Assign) and
+                                                     len(x.targets) == 1 and ast.unparse(x.targets[0]) == var], 1)[0]
+        out.append(kernel(nm, a.value, [('V', I)], {}))
+
     # ---------------- pdu.py: __len__ and header_size of the queued PDU classes
     out.append('Definition gen_c10_hdr_plain : Z := %d.\n' % class_const(pdu, 'ProtocolDataUnit', 'header_size'))
     out.append('Definition gen_c10_hdr_numbered : Z := %d.\n' % class_const(pdu, 'NumberedProtocolDataUnit', 'header_size'))
